@@ -11,7 +11,7 @@ same data under the same seeds (a failure earlier in the history leaves no trace
 import itertools
 
 PROPERTY = "C02"
-CASE_TIMEOUT = 240
+CASE_TIMEOUT = 1500
 
 
 def hang_sig(case):
@@ -127,9 +127,14 @@ def cases(tier, seed):
             continue
         for v in e["variants"]:
             for lay in b["layouts"]:
-                yield {"cls": name, "variant": v, "depth": b["depth"], "layout": lay}
+                K_ = 1 if tier == "quick" else (6 if lay == "C" else 2)
+                for k in range(K_):
+                    # thorough: the histories of the deepest level are split over K_ cases (index modulo K_)
+                    yield {"cls": name, "variant": v, "depth": b["depth"] if lay == "C" else b["depth"] - 1, "layout": lay, "slice": [k, K_]}
     for name in _faulty_variants():
-        yield {"cls": name, "variant": "faulty", "depth": b["depth"], "layout": "C"}
+        K_ = 1 if tier == "quick" else 6
+        for k in range(K_):
+            yield {"cls": name, "variant": "faulty", "depth": b["depth"], "layout": "C", "slice": [k, K_]}
 
 
 def _layout(a, lay):
@@ -249,8 +254,13 @@ def run_case(case):
         return fresh_cache[i]
 
     cnt = trans = ntriv = 0
+    sl = case.get("slice", [0, 1])
     for depth in range(1, case["depth"] + 1):
-        for hist in itertools.product(ops, repeat=depth):
+        for hno, hist in enumerate(itertools.product(ops, repeat=depth)):
+            if depth == case["depth"] and hno % sl[1] != sl[0]:
+                continue
+            if depth < case["depth"] and sl[0] != 0:
+                continue
             if hist[-1][0] not in ("fit",) and depth > 1 and hist[-1][0] == "pred" and hist[-2][0] == "pred":
                 continue
             cnt += 1
